@@ -408,6 +408,30 @@ func vmProgram(r *rand.Rand, g *vmGen) (*gen.Program, []gen.VarInfo) {
 			gen.Assign{Target: gen.Index{X: vr("m1", tMapN), I: gen.Binary{Op: "+", L: vr("mk", tStr), R: sl("x"), T: tStr}, T: tNum}, Val: nl(7)},
 			gen.Assign{Target: vr("sacc", tStr), Val: gen.Binary{Op: "+", L: vr("sacc", tStr), R: vr("mk", tStr), T: tStr}}}})
 	}
+	if r.Intn(2) == 0 {
+		// results of +, * and slicing are fresh arrays also when an operand is empty: writing through
+		// the result must not change the operand (and the other way round)
+		one := func(name string, e gen.Expr, idx int, val float64) {
+			decl(name, tArrN, e, 3, nil)
+			top = append(top, gen.Assign{Target: gen.Index{X: vr(name, tArrN), I: nl(float64(idx)), T: tNum}, Val: nl(val)})
+		}
+		decl("e0", tArrN, gen.Slice{X: vr("a1", tArrN), Hi: nl(0)}, 0, nil)
+		cands := []func(){
+			func() { one("c1", gen.Binary{Op: "+", L: vr("a1", tArrN), R: arrLit(tArrN), T: tArrN}, 0, 77) },
+			func() { one("c2", gen.Binary{Op: "+", L: arrLit(tArrN), R: vr("a1", tArrN), T: tArrN}, 1, 88) },
+			func() { one("c3", gen.Binary{Op: "+", L: vr("e0", tArrN), R: vr("a1", tArrN), T: tArrN}, 2, 99) },
+			func() { one("c4", gen.Binary{Op: "+", L: vr("a1", tArrN), R: vr("e0", tArrN), T: tArrN}, -1, 66) },
+			func() { one("c5", gen.Slice{X: vr("a1", tArrN)}, 0, 55) },
+			func() { one("c6", gen.Binary{Op: "*", L: vr("a1", tArrN), R: nl(1), T: tArrN}, 1, 44) },
+			func() {
+				decl("c7", tArrN, gen.Binary{Op: "+", L: vr("a1", tArrN), R: vr("e0", tArrN), T: tArrN}, 3, nil)
+				top = append(top, gen.Assign{Target: gen.Index{X: vr("a1", tArrN), I: nl(2), T: tNum}, Val: nl(33)})
+			},
+		}
+		for _, k := range r.Perm(len(cands))[:2+r.Intn(3)] {
+			cands[k]()
+		}
+	}
 	top = append(top, g.stmts(3, 3+r.Intn(5))...)
 	globals := append([]gen.VarInfo(nil), g.scopes[0]...)
 	g.globals = globals
